@@ -109,7 +109,8 @@ Record WF (m : model) : Prop := {
   wf_outs : NoDup (all_outs m);
   wf_formal : forall v, In v (all_formals m) -> ~ In v (all_outs m);
   wf_init_prod : forall v, In v (map fst (all_inits m)) -> ~ In v (all_outs m);
-  wf_nonempty : forall n, In n (all_nodes m) -> n_outs n <> [] }.
+  wf_nonempty : forall n, In n (all_nodes m) -> n_outs n <> [];
+  wf_inits_nodup : NoDup (map fst (all_inits m)) }.
 
 Lemma forallb_In {A} (p : A -> bool) l x : forallb p l = true -> In x l -> p x = true.
 Proof. rewrite forallb_forall. auto. Qed.
@@ -125,6 +126,7 @@ Proof.
   - intros v Hin. apply memN_false. apply negb_true_iff. exact (forallb_In _ _ v Hf Hin).
   - intros v Hin. apply memN_false. apply negb_true_iff. exact (forallb_In _ _ v Hi Hin).
   - intros n Hin E. pose proof (forallb_In _ _ n Hne Hin) as Hn. simpl in Hn. rewrite E in Hn. discriminate.
+  - apply nodupN_NoDup. assumption.
 Qed.
 
 Definition formal_of (m : model) (v : vid) : Prop := In v (all_formals m).
@@ -216,9 +218,11 @@ Proof.
 Qed.
 
 Lemma WF_rw tr sg p inits m : tr_ok tr ->
-  WF m -> (forall v, In v (map fst (all_inits (rw tr sg p inits m))) -> ~ In v (all_outs m)) -> WF (rw tr sg p inits m).
+  WF m -> (forall v, In v (map fst (all_inits (rw tr sg p inits m))) -> ~ In v (all_outs m)) ->
+  NoDup (map fst (all_inits (rw tr sg p inits m))) -> WF (rw tr sg p inits m).
 Proof.
-  intros Htr [H1 H2 H3 H4] Hi. constructor.
+  intros Htr [H1 H2 H3 H4 H5] Hi Hnd. constructor.
+  5:{ exact Hnd. }
   4:{ intros n Hn. rewrite all_nodes_rw in Hn. apply in_map_iff in Hn. destruct Hn as [n0 [<- Hn0]].
       apply filter_In in Hn0. destruct (Htr (subst_ins sg n0)) as [_ [_ [Ho _]]]. rewrite Ho. simpl. apply H4. tauto. }
   - unfold all_outs. rewrite all_nodes_rw, flat_map_map.
